@@ -1,4 +1,4 @@
-import SE.Spec.TemplateRefs
+import SE.Proofs.NameRune
 /-
 Helper lemmas for C11 (capture references expand as documented).
 -/
@@ -30,14 +30,19 @@ theorem capsOf_getD (m : RxMatch) (n : Nat) (hn : n ≠ 0) :
     obtain ⟨nm, t⟩ := g
     cases t <;> simp
 
+/-- `regexp.Expand` (with Go's rune-wise name scan) is the specification (ASCII names) on templates in
+    which no reference name and no lone `$` is directly followed by a byte ≥ 0x80 (`refsAsciiFollowed`);
+    without that hypothesis the statement is false: `$1é`, see
+    `SE.Props.C11.unicode_letter_after_ref_counterexample`. -/
 theorem rxExpand_eq_expandSpec (m : RxMatch) :
     ∀ (fuel : Nat) (t : Bytes), (∀ name ∈ refNames fuel t, refGood m name) →
-      rxExpand m fuel t = expandSpec (capsOf m) fuel t := by
+      refsAsciiFollowed fuel t = true →
+      rxExpand m fuel t = some (expandSpec (capsOf m) fuel t) := by
   intro fuel
   induction fuel with
-  | zero => intro t _; cases t <;> rfl
+  | zero => intro t _ _; cases t <;> rfl
   | succ fuel ih =>
-    intro t h
+    intro t h ha
     cases t with
     | nil => rfl
     | cons b rest =>
@@ -48,19 +53,32 @@ theorem rxExpand_eq_expandSpec (m : RxMatch) :
           by_cases hc : (c == cDollar) = true
           · have h' : ∀ name ∈ refNames fuel rest', refGood m name := by
               intro name hn; apply h; simp [refNames, hb, hc, hn]
-            simp [rxExpand, expandSpec, hb, hc, ih rest' h']
-          · cases hx : rxExtract (c :: rest') with
+            have ha' : refsAsciiFollowed fuel rest' = true := by
+              simpa [refsAsciiFollowed, hb, hc] using ha
+            simp [rxExpand, expandSpec, hb, hc, ih rest' h' ha']
+          · have hc' : (c == cDollar) = false := by simpa using hc
+            simp only [refsAsciiFollowed, hb, hc', if_true, Bool.false_eq_true, if_false,
+              Bool.and_eq_true] at ha
+            have hxu := rxExtractU_eq_rxExtract (c :: rest') ha.1
+            cases hx : rxExtract (c :: rest') with
             | none =>
               have h' : ∀ name ∈ refNames fuel (c :: rest'), refGood m name := by
                 intro name hn; apply h; simp [refNames, hb, hc, hx, hn]
-              simp [rxExpand, expandSpec, hb, hc, hx, ih _ h']
+              have ha' : refsAsciiFollowed fuel (c :: rest') = true := by
+                have := ha.2; rw [hx] at this; exact this
+              rw [hx] at hxu
+              simp [rxExpand, expandSpec, hb, hc, hx, hxu, ih _ h' ha']
             | some nr =>
               obtain ⟨name, r⟩ := nr
               have h' : ∀ nm ∈ refNames fuel r, refGood m nm := by
                 intro nm hn; apply h; simp [refNames, hb, hc, hx, hn]
+              have ha' : refsAsciiFollowed fuel r = true := by
+                have := ha.2; rw [hx] at this; exact this
               have hg : refGood m name := by apply h; simp [refNames, hb, hc, hx]
-              simp only [rxExpand, expandSpec, hb, hc, hx, if_true, if_false, Bool.false_eq_true, ih r h']
-              congr 1
+              rw [hx] at hxu
+              simp only [rxExpand, expandSpec, hb, hc, hx, hxu, if_true, if_false, Bool.false_eq_true,
+                ih r h' ha', Option.map_some]
+              congr 2
               unfold refGood at hg
               cases hn : rxNum name with
               | some n =>
@@ -79,7 +97,43 @@ theorem rxExpand_eq_expandSpec (m : RxMatch) :
       · have hb' : (b == cDollar) = false := by simpa using hb
         have h' : ∀ name ∈ refNames fuel rest, refGood m name := by
           intro name hn; apply h; simp [refNames, hb', hn]
-        simp [rxExpand, expandSpec, hb', ih rest h']
+        have ha' : refsAsciiFollowed fuel rest = true := by
+          simpa [refsAsciiFollowed, hb'] using ha
+        simp [rxExpand, expandSpec, hb', ih rest h' ha']
+
+/-- a template without `$` is copied by `regexp.Expand` (whatever other bytes it contains) -/
+theorem rxExpand_no_dollar (m : RxMatch) : ∀ (fuel : Nat) (t : Bytes), cDollar ∉ t → rxExpand m fuel t = some t := by
+  intro fuel
+  induction fuel with
+  | zero => intro t _; cases t <;> rfl
+  | succ fuel ih =>
+    intro t h
+    cases t with
+    | nil => rfl
+    | cons b rest =>
+      simp only [List.mem_cons, not_or] at h
+      have hb : (b == cDollar) = false := by
+        cases hbb : (b == cDollar) with
+        | false => rfl
+        | true => exfalso; apply h.1; simp at hbb; exact hbb.symm
+      simp [rxExpand, hb, ih rest h.2]
+
+/-- a template without `$` trivially satisfies the regex-side guard -/
+theorem refsAsciiFollowed_no_dollar : ∀ (fuel : Nat) (t : Bytes), cDollar ∉ t → refsAsciiFollowed fuel t = true := by
+  intro fuel
+  induction fuel with
+  | zero => intro t _; cases t <;> rfl
+  | succ fuel ih =>
+    intro t h
+    cases t with
+    | nil => rfl
+    | cons b rest =>
+      simp only [List.mem_cons, not_or] at h
+      have hb : (b == cDollar) = false := by
+        cases hbb : (b == cDollar) with
+        | false => rfl
+        | true => exfalso; apply h.1; simp at hbb; exact hbb.symm
+      simp [refsAsciiFollowed, hb, ih rest h.2]
 
 /-- the names `rxExtract` returns are non-empty -/
 theorem rxExtract_name_ne_nil (s name r : Bytes) (h : rxExtract s = some (name, r)) : name ≠ [] := by
